@@ -1,6 +1,6 @@
 # -*- coding: utf-8 -*-
 
-lSingleCharacterSymbols = [",", ":", "(", ")", "'", '"', "+", "&", "-", "*", "/", "<", ">", ";", "=", "[", "]", "?"]
+lSingleCharacterSymbols = [",", ":", "(", ")", "'", '"', "+", "&", "-", "*", "/", "<", ">", ";", "=", "[", "]", "?", "|"]
 lTwoCharacterSymbols = ["=>", "**", ":=", "/=", ">=", "<=", "<>", "??", "?=", "?<", "?>", "<<", ">>", "--", "/*", "*/"]
 lThreeCharacterSymbols = ["?/=", "?<=", "?>="]
 lFourCharacterSymbols = ["\\?=\\"]
